@@ -99,7 +99,7 @@ _RG_STRONG = ["rg_alloc", "rg_increment_strong_owner", "rg_increment_strong_prot
               "rg_is_not_destructed", "rg_decrement_strong_noguard", "rg_decrement_strong_guard", "rg_try_destruct"]
 _RG_WEAK = ["rg_increment_weak_owner", "rg_increment_weak_protected", "rg_decrement_weak_noguard", "rg_decrement_weak_guard",
             "rg_try_dealloc", "rg_dealloc_frees"]
-_DISP_CORE = ["dispose_chain_level", "dispose_null_edge_then_child", "dispose_recursion_depth_argument", "dispose_leaf_any_depth", "dispose_null", "dispose_entry"]
+_DISP_CORE = ["dispose_chain_level", "dispose_null_edge_then_child", "dispose_second_edge_after_long_first_edge", "dispose_recursion_depth_argument", "dispose_leaf_any_depth", "dispose_null", "dispose_entry"]
 _MODS_ALL = ["utils_state_h.rs", "utils_rg_h.rs", "utils_dispose_h.rs", "internal_cut_h.rs", "strong_h.rs", "weak_h.rs"]
 _FAST = ["--no-assertion-reach-checks", "--no-assert-contracts"]
 _L1_FUNCS = ["RcInner::{alloc,dealloc,increment_strong,is_not_destructed,decrement_strong,try_destruct,increment_weak,decrement_weak,try_dealloc}",
@@ -176,7 +176,7 @@ PROPS["C02"] = dict(
     kani_flags=_FAST, loops=_STUTTER,
     functions_under_contract=["SealedBag::is_expired", "Global::push_bag (seal = global epoch read at sealing)", "RcInner::decrement_strong (stamp = epoch read before the CAS; zero => deferred try_destruct only)", "AtomicRc::{store,swap,compare_exchange*,compare_exchange_tag} (timestamp on every non-null write)",
                               "dispose_general_node (child reclaimed in the same pass only if newest(parent,link,child) stamp is old enough; merged stamp written)", "RcInner::is_not_destructed (token by CAS from zero)", "Modular::{le,max}"],
-    expected_obligations=["C02.dec.stamp_is_epoch_read_before_cas", "C02.dec.never_destructs_directly", "C02.cascade.child_stamp_is_newest_of_parent_link_child", "C12.site.immediate_only_if_stamp_old_enough",
+    expected_obligations=["C02.dec.stamp_is_epoch_read_before_cas", "C02.dec.stamped_epoch_is_read_inside_a_critical_section", "C02.cascade.second_edge_stamp_judged_against_the_current_clock", "C02.dec.never_destructs_directly", "C02.cascade.child_stamp_is_newest_of_parent_link_child", "C12.site.immediate_only_if_stamp_old_enough",
                           "C02.cascade.recent_node_redeferred_exactly_once", "C02.wsnap_upgrade.token_added_when_zero", "C08.store.installs_ptr_tag_exact_timestamped", "C12.window.never_old_below_threshold",
                           "C02.lemma.stamp_taken_inside_cs_makes_every_decision_inside_cs_recent", "C02.wsnap_upgrade.success_leaves_stamp_of_epoch_read_in_this_call"],
     trusted_base=[A_TOOLS, A_SC, A_RG, A_EBR, "A-PAPER: the CIRC Snapshot-validity theorem (composition of the four stamp mechanisms over epochs and critical sections) is NOT decided here"],
@@ -315,8 +315,9 @@ PROPS["C13"] = dict(
 PROPS["C14"] = dict(
     harness_timeout=dict(quick=1500, thorough=5400),
     title="epoch clock is monotone; a pinned participant sees at most one advance", level="proof",
-    modules=_L3M, contract_groups=_L3G,
-    kani=dict(quick=_h("epoch_h.rs", _EPOCH) + _h(_INT, ["c16_pin", "c14_repin_without_collect", "c13_try_advance", "c14_try_advance_monotone", "c14_try_advance_monotone_under_reannouncement", "c16_repin", "c16_unpin", "c15_flush", "c13_push_bag"])),
+    modules=["utils_state_h.rs", "utils_dispose_h.rs", "internal_cut_h.rs"] + _L3M, contract_groups=["state", "modular", "epoch", "expired"],
+    kani=dict(quick=_h("epoch_h.rs", _EPOCH) + _h(_INT, ["c16_pin", "c14_repin_without_collect", "c13_try_advance", "c14_try_advance_monotone", "c14_try_advance_monotone_under_reannouncement", "c16_repin", "c16_unpin", "c15_flush", "c15_defer", "c13_push_bag"])
+              + _h("utils_dispose_h.rs", ["dispose_periodic_reannouncement"])),
     kani_flags=_FAST,
     loops="pin's validation loop by the stutter lemma (budget B); the registry scan inside try_advance: registry of 2 hand-built participants (bounded, see bounded)",
     bounded=["Global::try_advance: registry of 2 hand-built participants (the scan itself is C18's sequential contract)"],
@@ -347,14 +348,17 @@ PROPS["C15"] = dict(
 PROPS["C16"] = dict(
     harness_timeout=dict(quick=1500, thorough=5400),
     title="nested guards and reactivation keep the thread pinned exactly as documented", level="proof",
-    modules=_L3M, contract_groups=_L3G,
-    kani=dict(quick=_h(_INT, ["c16_pin", "c16_unpin", "c16_repin", "c16_reactivate_after", "c15_handles", "c15_finalize", "c16_guard_drop", "c14_repin_without_collect", "c15_flush", "c15_local_handle", "c18_register"])),
+    modules=["utils_state_h.rs", "utils_dispose_h.rs", "internal_cut_h.rs"] + _L3M, contract_groups=["state", "modular", "epoch", "expired"],
+    kani=dict(quick=_h(_INT, ["c16_pin", "c16_unpin", "c16_repin", "c16_reactivate_after", "c15_handles", "c15_finalize", "c16_guard_drop", "c14_repin_without_collect", "c15_flush", "c15_defer", "c13_collect", "c15_local_handle", "c18_register"])
+              + _h("utils_dispose_h.rs", ["dispose_periodic_reannouncement"])),
     kani_flags=_FAST,
     loops="unbounded nesting by the data-structure invariant InvL (guard_count > 0 <=> pinned bit) from a symbolic guard_count/handle_count; arbitrary depth and order follow by induction on operations",
     functions_under_contract=["Local::{pin,unpin,repin,repin_without_collect,acquire_handle,release_handle,finalize}", "Guard::{reactivate,reactivate_after,drop}"],
     expected_obligations=["C16.pin.counts_one_more_guard", "C16.pin.nested_keeps_announced_epoch", "C16.pin.other_participant_untouched", "C16.unpin.counts_one_guard_less", "C13.unpin.clears_pinned_bit_only_for_outermost_guard",
                           "C16.reactivate.unpins_only_when_sole_guard", "C16.reactivate.pinned_again_afterwards", "C16.reactivate.nested_keeps_announced_epoch", "C16.reactivate_after.f_runs_unpinned_only_when_sole_guard",
-                          "C16.reactivate_after.pinned_again_afterwards", "C16.guard_drop.unpins_its_participant_exactly_once", "C13.schedule_collection.keeps_announced_epoch_outside_collection"],
+                          "C16.reactivate_after.pinned_again_afterwards", "C16.guard_drop.unpins_its_participant_exactly_once", "C16.flush.keeps_the_announced_epoch_under_a_live_guard",
+                          "C13.defer.keeps_the_announced_epoch_inside_a_critical_section", "C16.unpin.collection_keeps_the_epoch_of_a_guard_kept_by_a_destructor", "C16.collect.keeps_the_announced_epoch_while_another_guard_is_alive",
+                          "C16.dispose.periodic_re_announcement_keeps_the_epoch_of_a_foreign_guard"],
     trusted_base=[A_TOOLS, "the panic path of reactivate_after ('also when the closure panics') is NOT covered: Kani aborts on panic and does not model unwinding; scopeguard is trusted"],
     assumptions=["destructors that run during collection may create guards: collect is abstracted by its contract - it may leave up to 2 additional live guards on this participant (this clause was added after defect F7), otherwise it does not touch the participant's counters"],
 )
@@ -389,6 +393,26 @@ PROPS["C18"] = dict(
     assumptions=["bounded and sequential; labelled bounded, not counted as a proof of the property"],
     explanation="BOUNDED sequential contract only: a traversal that ends without Stalled returned every unmarked entry exactly once in order; marked entries are unlinked and finalized exactly once; insert makes the new entry reachable and keeps all others; "
                 "delete sets only the mark; try_advance consults every registered participant. Concurrent registration/removal during traversal is not claimed.",
+)
+PROPS["C20"] = dict(
+    harness_timeout=dict(quick=1500, thorough=5400),
+    title="usable during thread start-up and tear-down: the guard-only participant", level="other",
+    level_text="contracts of the functions the tear-down path consists of, proved over a state space that includes the participant `cs()` creates once the thread's handle is gone (no handle, kept alive by its guard alone); the thread-local machinery that selects this path is NOT modelled",
+    modules=_L3M, contract_groups=_L3G,
+    kani=dict(quick=_h(_INT, ["c20_fallback_participant_lifecycle", "c16_repin", "c16_reactivate_after", "c16_unpin", "c15_handles", "c15_finalize", "c15_local_handle", "c18_register", "c15_defer", "c15_flush", "c16_guard_drop"])),
+    kani_flags=_FAST,
+    loops="no loop of its own; the units' loops as in C15/C16",
+    bounded=["bags of <= 2 functions (c15_finalize, c15_defer, c15_flush)"],
+    functions_under_contract=["Collector::register", "LocalHandle::{pin,drop}", "Local::{acquire_handle,release_handle,repin,unpin,finalize,defer,flush}", "Guard::{reactivate,reactivate_after,flush,drop}"],
+    expected_obligations=["C20.fallback.temporary_participant_lives_on_its_guard_alone", "C20.guard_only.every_guard_operation_keeps_the_participant_alive_and_pinned", "C20.fallback.last_guard_finalizes_the_temporary_participant_exactly_once",
+                          "C20.reactivate.works_on_a_participant_kept_by_its_guard_alone", "C20.reactivate_after.works_on_a_participant_kept_by_its_guard_alone", "C15.unpin.finalizes_only_handleless_participant",
+                          "C15.finalize.hands_local_bag_to_global_queue", "C18.register.participant_is_reachable_from_registry_head"],
+    trusted_base=[A_TOOLS, "std's thread_local!: that HANDLE.try_with fails exactly after HANDLE's destructor ran, and the order in which thread-local destructors run, are NOT modelled (Kani has no threads and turns thread-locals into statics); default.rs::with_handle is two lines whose fallback branch `f(&collector().register())` is replayed literally by c20_fallback_participant_lifecycle",
+                  "the OnceLock-initialised default collector (std) is trusted; 'without deadlocking' is not decided (the engine takes no lock; not a contract)"],
+    assumptions=["'every kind of API call made from a destructor' is covered at the level of the EBR engine's guard operations (pin, defer, flush, reactivate, reactivate_after, drop) on the guard-only participant; the Rc-layer calls reduce to these through cs()/defer (A-EBR of C01-C05)",
+                 "'without leaking the garbage that thread produced' is the hand-over contract of Local::finalize (c15_finalize) plus A-EBR's 'every deferred closure runs'"],
+    explanation="The property's thread-lifecycle quantifier cannot be decided by contracts (no TLS teardown in Kani or Verus). What is decided: the state the fallback path creates - a registered participant with handle_count == 0 and one live guard - is inside the state space of every guard-operation contract, "
+                "none of them panics on it (the crate's own debug assertions are proof obligations; defect F12 was such an assertion), the participant is finalized exactly once by its last guard, and finalize hands its bag to the global queue.",
 )
 # Harnesses that bound the SIZE of a data structure (bags, queue, registry, N of a const generic):
 # complete for the stated size (unwinding assertions on), but a bounded stand-in w.r.t. the property's
